@@ -193,6 +193,42 @@ func oversizedPluginCases() []Case {
 	return out
 }
 
+// hostile-repository: the answers of a foreign registry.Repository implementation (a remote registry's referrers
+// API, any implementation of the interface) are untrusted registry content: descriptors with malformed digests,
+// negative sizes, empty media types, empty / several pages, errors at every step.
+var (
+	hostileDigests = []string{"", "deadbeef", "sha256", "sha256:", ":abcd", "sha256:zz", "nosuchalg:abcd", "SHA256:" + "0000000000000000000000000000000000000000000000000000000000000000"}
+	resolveAnswers = []string{"ok", "error", "zero-descriptor", "negative-size", "empty-media-type"}
+	listAnswers    = []string{"one", "none", "nil-page", "error", "two-pages", "good-then-odd", "odd-then-good", "odd-only", "callback-error-ignored"}
+	fetchAnswers   = []string{"signature", "error", "nil-blob", "empty-media-type", "odd-digest-in-descriptor", "garbage"}
+)
+
+func hostileRepoCases() []Case {
+	var out []Case
+	add := func(resolve, list, fetch, dg string) {
+		l := fmt.Sprintf("resolve=%s/list=%s/fetch=%s/odd-digest=%q", resolve, list, fetch, dg)
+		out = append(out, Case{Family: "hostile-repository", Kind: "notation.Verify", Label: l, Class: "resolve=" + resolve + ",list=" + list + ",fetch=" + fetch, Variant: dg, Entries: []string{resolve, list, fetch}})
+	}
+	for _, rs := range resolveAnswers {
+		for _, ls := range listAnswers {
+			for _, fs := range fetchAnswers {
+				odd := strings.Contains(ls, "odd") || fs == "odd-digest-in-descriptor"
+				if !odd {
+					add(rs, ls, fs, "-")
+					continue
+				}
+				for _, dg := range hostileDigests {
+					add(rs, ls, fs, dg)
+				}
+			}
+		}
+	}
+	for _, dg := range hostileDigests {
+		add("odd-digest", "one", "signature", dg)
+	}
+	return out
+}
+
 // readerCases: the way the caller's reader delivers the blob to notation.VerifyBlob must not matter.
 func readerCases() []Case {
 	var out []Case
@@ -296,7 +332,7 @@ func documentCases(w *world, thorough bool) []Case {
 		if kind == "oci-policy" || kind == "blob-policy" {
 			extra = policyInsertions
 		}
-		ms := append(nodeMutations(doc, ""), insertionMutations(doc, "", extra)...)
+		ms := append(append(nodeMutations(doc, ""), insertionMutations(doc, "", extra)...), siblingSwaps(doc, "")...)
 		for _, m := range append(ms, truncations(doc, "", 1)...) {
 			out = append(out, Case{Family: "json-node", Kind: kind, Label: m.Label, Class: m.Class, Input: m.Bytes})
 		}
@@ -337,7 +373,7 @@ func layoutCases(w *world, thorough bool) []Case {
 				out = append(out, c)
 			}
 		}
-		for _, m := range append(append(nodeMutations(doc, ""), insertionMutations(doc, "", nil)...), truncations(doc, "", 1)...) {
+		for _, m := range append(append(append(nodeMutations(doc, ""), insertionMutations(doc, "", nil)...), siblingSwaps(doc, "")...), truncations(doc, "", 1)...) {
 			out = append(out, Case{Family: "oci-layout", Kind: kind, Label: m.Label, Class: m.Class, Input: m.Bytes, Variant: "consistent"})
 			if kind != "index.json" && m.Op != "trunc" {
 				out = append(out, Case{Family: "oci-layout", Kind: kind, Label: m.Label + "/stale-digest", Class: m.Class, Input: m.Bytes, Variant: "stale-digest"})
@@ -357,7 +393,7 @@ func pluginCases(w *world, thorough bool) []Case {
 	}
 	for _, cmd := range protoCommands {
 		doc := []byte(w.PluginOut[cmd])
-		for _, m := range append(append(nodeMutations(doc, ""), insertionMutations(doc, "", nil)...), truncations(doc, "", step)...) {
+		for _, m := range append(append(append(nodeMutations(doc, ""), insertionMutations(doc, "", nil)...), siblingSwaps(doc, "")...), truncations(doc, "", step)...) {
 			out = append(out, Case{Family: "plugin-output", Kind: cmd, Label: m.Label, Class: m.Class, Input: m.Bytes, Variant: "stdout", Entries: []string{"direct", "composite"}})
 		}
 		doc = []byte(w.PluginOut["stderr"])
